@@ -1,6 +1,8 @@
 package fakeconn
 
 import (
+	"crypto/sha256"
+	"encoding/binary"
 	"fmt"
 	"hash/fnv"
 	"sort"
@@ -44,7 +46,9 @@ type Table struct {
 	Select      string // normalised SELECT text
 	Rows        [][]string
 
-	canon string // cached schema part of the canonical form
+	canon string   // cached schema part of the canonical form
+	fp    [2]uint64 // 128-bit digest of (database, schema, rows); maintained by seal / sealRows
+	db    string
 }
 
 func (t *Table) clone() *Table {
@@ -89,27 +93,33 @@ func (t *Table) schemaCanon() string {
 		return t.canon
 	}
 	var b strings.Builder
-	fmt.Fprintf(&b, "%s %s engine=%s(%s)", t.Kind, t.Name, t.Engine, strings.Join(t.EngineArgs, ","))
+	b.Grow(512)
+	w := func(parts ...string) {
+		for _, p := range parts {
+			b.WriteString(p)
+		}
+	}
+	w(t.Kind, " ", t.Name, " engine=", t.Engine, "(", strings.Join(t.EngineArgs, ","), ")")
 	for _, c := range t.Columns {
-		fmt.Fprintf(&b, "\n  col %s %s", c.Name, c.Type)
+		w("\n  col ", c.Name, " ", c.Type)
 		if c.DefaultKind != "" {
-			fmt.Fprintf(&b, " %s %s", c.DefaultKind, c.DefaultExpr)
+			w(" ", c.DefaultKind, " ", c.DefaultExpr)
 		}
 		if c.Codec != "" {
-			fmt.Fprintf(&b, " CODEC(%s)", c.Codec)
+			w(" CODEC(", c.Codec, ")")
 		}
 	}
 	if t.PartitionBy != "" {
-		fmt.Fprintf(&b, "\n  partition_by %s", t.PartitionBy)
+		w("\n  partition_by ", t.PartitionBy)
 	}
 	if len(t.OrderBy) > 0 {
-		fmt.Fprintf(&b, "\n  order_by (%s)", strings.Join(t.OrderBy, ", "))
+		w("\n  order_by (", strings.Join(t.OrderBy, ", "), ")")
 	}
 	if t.PrimaryKey != "" {
-		fmt.Fprintf(&b, "\n  primary_key %s", t.PrimaryKey)
+		w("\n  primary_key ", t.PrimaryKey)
 	}
 	for _, e := range t.TTL {
-		fmt.Fprintf(&b, "\n  ttl %s", e)
+		w("\n  ttl ", e.Base, "+", strconv.FormatInt(e.Seconds, 10), "s→", e.Action)
 	}
 	keys := make([]string, 0, len(t.Settings))
 	for k := range t.Settings {
@@ -117,13 +127,13 @@ func (t *Table) schemaCanon() string {
 	}
 	sort.Strings(keys)
 	for _, k := range keys {
-		fmt.Fprintf(&b, "\n  setting %s=%s", k, t.Settings[k])
+		w("\n  setting ", k, "=", t.Settings[k])
 	}
 	if t.To != "" {
-		fmt.Fprintf(&b, "\n  to %s", t.To)
+		w("\n  to ", t.To)
 	}
 	if t.Select != "" {
-		fmt.Fprintf(&b, "\n  from %s\n  as %s", t.From, t.Select)
+		w("\n  from ", t.From, "\n  as ", t.Select)
 	}
 	t.canon = b.String()
 	return t.canon
@@ -297,6 +307,57 @@ func lessVersion(a, b string) bool {
 		return na < nb
 	}
 	return a < b
+}
+
+// digest recomputes the table's 128-bit digest from its canonical schema text and its (clock-masked) rows.
+func (t *Table) digest() {
+	h := sha256.New()
+	h.Write([]byte(t.db))
+	h.Write([]byte{0})
+	h.Write([]byte(t.schemaCanon()))
+	lines := make([]string, 0, len(t.Rows))
+	for _, r := range t.Rows {
+		var b strings.Builder
+		for _, v := range r {
+			if _, ok := clockOf(v); ok {
+				v = "T"
+			}
+			b.WriteString(v)
+			b.WriteByte(0)
+		}
+		lines = append(lines, b.String())
+	}
+	sort.Strings(lines) // the order of rows is not part of the state
+	for _, l := range lines {
+		h.Write([]byte{1})
+		h.Write([]byte(l))
+	}
+	var sum [32]byte
+	h.Sum(sum[:0])
+	t.fp = [2]uint64{binary.LittleEndian.Uint64(sum[0:8]), binary.LittleEndian.Uint64(sum[8:16])}
+}
+
+// Fingerprint is a 128-bit digest of the whole state, equal exactly for states with equal Canon() (up to digest
+// collisions).  It is the sum of per-table digests
+// that are maintained when a table changes, so it costs a few additions per table instead of building the text.
+func (s *State) Fingerprint() [2]uint64 {
+	var f [2]uint64
+	for d, ts := range s.DBs {
+		if len(ts) == 0 {
+			h := sha256.Sum256([]byte("emptydb\x00" + d))
+			f[0] += binary.LittleEndian.Uint64(h[0:8])
+			f[1] += binary.LittleEndian.Uint64(h[8:16])
+			continue
+		}
+		h := sha256.Sum256([]byte("db\x00" + d))
+		f[0] += binary.LittleEndian.Uint64(h[0:8])
+		f[1] += binary.LittleEndian.Uint64(h[8:16])
+		for _, t := range ts {
+			f[0] += t.fp[0]
+			f[1] += t.fp[1]
+		}
+	}
+	return f
 }
 
 // Canon is the canonical form of the whole state (schema + rows).
